@@ -116,7 +116,7 @@ def parse_f90(text, func_name='vf'):
     out['stpnt_y'] = [(int(a), v, n) for a, v, n in re.findall(r'\by\((\d+)\)\s*=\s*([^\s!]+)\s*!\s*(\S+)', joined.split('subroutine stpnt')[1].split('end subroutine')[0])]
     func_body = joined.split('subroutine func')[1].split('end subroutine func')[0]
     out['dfdp_cols'] = sorted({int(c) for c in re.findall(r'dfdp\(\d+,(\d+)\)', func_body)})
-    out['dfdu'] = bool(re.search(r'dfdu\(', func_body.split('implicit none')[1]))
+    out['dfdu'] = bool(re.search(r'dfdu\(\s*\d+\s*,\s*\d+\s*\)\s*=', func_body.split('implicit none')[1]))     # (assignments, not the declaration)
     return out
 
 
@@ -140,7 +140,7 @@ def run_case(case, ctx):
     rnd = random.Random(case['cseed'])
     mech = {}
     spec = case.get('spec') or gen_model(rnd, ctx, single=bool(case.get('bvp')))
-    scenarios = tuple(rnd.sample(['ivp', 'eq', 'lc', 'bvp'], rnd.randint(1, 3)))
+    scenarios = tuple(rnd.sample(['ivp', 'eq', 'lc', 'bvp', 'hom'], rnd.randint(1, 3)))
     # boundary-value export: boundary conditions / integral constraints that use a parameter (zbc) which the vector field does not
     # use and which is declared BEFORE the vector-field parameters of its operator (single-node models: plain variable names)
     bvp_kw = {}
@@ -167,6 +167,12 @@ def run_case(case, ctx):
     overrides = {}
     if rnd.random() < 0.5:
         overrides['NMX'] = rnd.choice([123, 4567])
+    # exports without the analytical Jacobian blocks (auto_jac=False): the constants files must not announce one
+    no_jac = case.get('family') != 'auto_jacobian' and rnd.random() < 0.25
+    jac_kw = {}
+    if no_jac:
+        jac_kw = {'auto_jac': False}
+        mech['exports_without_jacobian'] = 1
     res = {'features': list(scenarios), 'risk': [], 'sig': stable_hash([spec, scenarios, overrides])}
     try:
         ref = RefModel(spec)
@@ -177,7 +183,7 @@ def run_case(case, ctx):
         try:
             f, args, names, smap = tmpl.get_run_func('vf', step_size=1e-3, backend='fortran', auto=True, vectorize=False, solver='scipy',
                                                      float_precision='float64', file_name=fname, verbose=False, auto_constants=scenarios, **overrides,
-                                                     **bvp_kw)
+                                                     **bvp_kw, **jac_kw)
         except Exception as e:
             import traceback
             raise observe.Mismatch(f"loud: auto export raised {type(e).__name__}: {e} :: {traceback.format_exc()[-500:]}")
@@ -261,6 +267,10 @@ def run_case(case, ctx):
             if not os.path.exists(f'c.{scen}'):
                 raise observe.Mismatch(f"c.{scen} was not written; files {sorted(os.listdir('.'))}")
             C = parse_constants(open(f'c.{scen}').read())
+            if not P['dfdu'] and 'JAC' not in overrides and C.get('JAC') not in (0, None):
+                raise observe.Mismatch(f"c.{scen}: JAC = {C.get('JAC')} although the exported FUNC contains no DFDU / DFDP assignments "
+                                       f"(auto_jac={not no_jac})")
+            mech['jac_flags_checked'] = mech.get('jac_flags_checked', 0) + 1
             if C.get('NDIM') != len(y0):
                 raise observe.Mismatch(f"c.{scen}: NDIM = {C.get('NDIM')} for {len(y0)} state variables")
             if C.get('NPAR') != max(slots + [1]):
